@@ -42,20 +42,4 @@ example : fnv32 [97, 108, 105, 99, 101] % 3 = 2 ∧ fnv32 [97, 108, 105, 99, 101
 
 theorem fnv32_lt (key : Bytes) : fnv32 key < 4294967296 := (fnv32w key).toNat_lt
 
-/-- the word-level transcription is the `Nat`-arithmetic `SV.fnv32` the other models (immunity cache, drivers) use -/
-theorem fnv32_eq_common (key : Bytes) : fnv32 key = SV.fnv32 key := by
-  unfold fnv32 fnv32w SV.fnv32
-  generalize (2166136261 : UInt32) = h0
-  have : ∀ (h : UInt32),
-      (List.foldl (fun hash (b : UInt8) => (hash * 16777619) ^^^ b.toUInt32) h key).toNat =
-      List.foldl (fun h (b : UInt8) => ((h * 16777619) % 4294967296) ^^^ b.toNat) h.toNat key := by
-    induction key with
-    | nil => intro h; rfl
-    | cons b r ih =>
-      intro h
-      simp only [List.foldl_cons]
-      rw [ih]
-      congr 1
-  sorry
-
 end SV.TxCache.ChunkedMap
